@@ -42,6 +42,12 @@ def _reexec():
 
 
 _reexec()
+try:    # a runaway computation becomes a reported failure, not an OOM kill
+    import resource
+    _lim = int(os.environ.get("VERIF_MEM_GB", "36")) << 30
+    resource.setrlimit(resource.RLIMIT_AS, (_lim, _lim))
+except Exception:
+    pass
 sys.path.insert(0, REPO)
 sys.path.insert(0, os.path.join(VERIF, "harness"))
 sys.setrecursionlimit(100000)
